@@ -121,71 +121,121 @@ func (p *Prog) computeFuncAliases() {
 			old = append(old, n)
 		}
 		cur := par.AnonFuncs
-		if len(old) == 0 || len(cur) != len(old)-1 {
+		if len(old) == 0 || len(cur) >= len(old) {
 			continue
 		}
-		// which recorded closure is gone? the remaining ones must line up by signature in exactly one way
-		cand := -1
-		for k := range old {
-			ok := true
+		// which recorded closures are gone? align the remaining ones with the recorded list by signature; with one
+		// closure gone the alignment must be unique, with several gone a greedy left-to-right alignment is used
+		var gone []int
+		keep := map[int]int{} // recorded index -> current index
+		if len(cur) == len(old)-1 {
+			cand := -1
+			for k := range old {
+				ok := true
+				for i, j := 0, 0; i < len(old); i++ {
+					if i == k {
+						continue
+					}
+					if FuncTable[old[i]][2] != sigString(cur[j]) {
+						ok = false
+						break
+					}
+					j++
+				}
+				if ok {
+					if cand >= 0 {
+						cand = -2
+						break
+					}
+					cand = k
+				}
+			}
+			if cand < 0 {
+				continue
+			}
+			gone = []int{cand}
 			for i, j := 0, 0; i < len(old); i++ {
-				if i == k {
+				if i == cand {
 					continue
 				}
-				if FuncTable[old[i]][2] != sigString(cur[j]) {
-					ok = false
-					break
-				}
+				keep[i] = j
 				j++
 			}
-			if ok {
-				if cand >= 0 {
-					cand = -2
-					break
+		} else {
+			j := 0
+			for i := range old {
+				if j < len(cur) && FuncTable[old[i]][2] == sigString(cur[j]) {
+					keep[i] = j
+					j++
+				} else {
+					gone = append(gone, i)
 				}
-				cand = k
+			}
+			if j != len(cur) {
+				continue
 			}
 		}
-		if cand < 0 {
-			continue
-		}
-		// the one new function par refers to
-		var target *ssa.Function
-		n := 0
+		// the new functions par refers to
+		var targets []*ssa.Function
 		seen := map[*ssa.Function]bool{}
-		EachInstr(par, func(_ *ssa.BasicBlock, _ int, in ssa.Instruction) {
-			var f *ssa.Function
-			if ci, ok := in.(ssa.CallInstruction); ok {
-				f = StaticCallee(ci)
-			}
-			if mc, ok := in.(*ssa.MakeClosure); ok {
-				f, _ = mc.Fn.(*ssa.Function)
-				if f != nil && f.Synthetic != "" && len(f.Blocks) > 0 { // bound method wrapper
-					for _, c2 := range Calls(f) {
-						if g := StaticCallee(c2); g != nil {
-							f = g
-						}
+		consider := func(f *ssa.Function) {
+			if f != nil && f.Synthetic != "" && len(f.Blocks) > 0 { // bound method wrapper
+				for _, c2 := range Calls(f) {
+					if g := StaticCallee(c2); g != nil {
+						f = g
 					}
 				}
 			}
 			if f != nil && f.Parent() == nil && f.Pkg == par.Pkg && isNew(f) && !seen[f] {
 				seen[f] = true
-				target = f
-				n++
+				targets = append(targets, f)
+			}
+		}
+		EachInstr(par, func(_ *ssa.BasicBlock, _ int, in ssa.Instruction) {
+			if ci, ok := in.(ssa.CallInstruction); ok {
+				consider(StaticCallee(ci))
+				for _, a := range ci.Common().Args {
+					if fv, ok := a.(*ssa.Function); ok {
+						consider(fv)
+					}
+					if mc, ok := a.(*ssa.MakeClosure); ok {
+						if fv, ok := mc.Fn.(*ssa.Function); ok {
+							consider(fv)
+						}
+					}
+				}
+			}
+			if mc, ok := in.(*ssa.MakeClosure); ok {
+				if fv, ok := mc.Fn.(*ssa.Function); ok {
+					consider(fv)
+				}
 			}
 		})
-		if n != 1 {
-			continue
-		}
-		setAlias(target, old[cand])
-		for i, j := 0, 0; i < len(old); i++ {
-			if i == cand {
-				continue
+		assigned := map[*ssa.Function]bool{}
+		if len(gone) == 1 && len(targets) == 1 {
+			setAlias(targets[0], old[gone[0]])
+			assigned[targets[0]] = true
+		} else {
+			// several: a closure without captures keeps its signature when it becomes a function
+			for _, gi := range gone {
+				var match *ssa.Function
+				n := 0
+				for _, t := range targets {
+					if !assigned[t] && sigString(t) == FuncTable[old[gi]][2] {
+						match = t
+						n++
+					}
+				}
+				if n == 1 {
+					setAlias(match, old[gi])
+					assigned[match] = true
+				}
 			}
+		}
+		for i, j := range keep {
 			if cur[j].String() != old[i] {
 				setAlias(cur[j], old[i])
 			}
-			j++
 		}
 	}
 }
